@@ -1,5 +1,6 @@
 import OFCore.HolderStore
 import OFCore.GeneratedEngine
+import OFCore.Lemmas.HolderStore
 /-!
 # C17 — the two-tier store model reads and writes exactly as the code's source says (translator tie)
 
@@ -29,6 +30,14 @@ theorem C17_tie_set_store (key : P → K) (h : Holder K V) (p : P) (x : V) (pres
       else { h with mem := tput h.mem (key p) x } := by
   unfold Holder.set Engine.holder_set_to_disk
   cases hd : h.diskable <;> cases hm : tget h.mem (key p) <;> cases pressure <;> simp
+
+/-- the lookup the current source of `Holder.get_array` performs, applied to the two stores as ANY history of
+    writes and deletions under ANY pressure schedule left them, returns what a plain finite map holds after the
+    same history — the refinement theorem restated with the translated code as the reader -/
+theorem C17_code_lookup_refines_map (key : P → K) (ops : List (Op P V)) (h : Holder K V) (p : P) :
+    Engine.holder_get_array (tget (h.run key ops).mem (key p)) (tget (h.run key ops).disk (key p)) (h.run key ops).diskable
+      = specRun key h.view ops (key p) := by
+  rw [← C17_tie_get_array, get_eq_view, view_run]
 
 /-- the code's lookup on concrete contents: memory wins, the disk answers only when memory is silent and a disk
     store exists -/
